@@ -2,6 +2,7 @@ package main
 
 import (
 	"fmt"
+	"math"
 	"go/constant"
 	"go/token"
 	"go/types"
@@ -719,7 +720,7 @@ func (x *Exec) conv(tdst, tsrc types.Type, v value) value {
 		case t.sort.K == KBV && ds.K == KFP:
 			return x.tb.FFromInt(t, isSigned(tsrc), ds)
 		case t.sort.K == KFP && ds.K == KBV:
-			return x.tb.FToInt(t, isSigned(tdst), ds.W)
+			return x.floatToInt(t, isSigned(tdst), ds.W)
 		case t.sort.K == KFP && ds.K == KFP:
 			return x.tb.FCvt(t, ds)
 		case t.sort.K == KBool && ds.K == KBool:
@@ -1003,5 +1004,41 @@ func nativeGrowCap(oldLen, oldCap, add int, eltSize int64) int {
 		return growT[e24](oldLen, oldCap, add)
 	default:
 		return growT[e32](oldLen, oldCap, add)
+	}
+}
+
+// floatToInt models the amd64 behaviour of Go's float -> integer conversion, including the
+// "integer indefinite" result for NaN and out-of-range operands (the language leaves those
+// implementation-defined; the tests and replays run on this platform).
+func (x *Exec) floatToInt(f *Term, signed bool, w int) *Term {
+	tb := x.tb
+	if f.op == OConst {
+		return tb.FToInt(f, signed, w)
+	}
+	f64 := tb.FCvt(f, SF64)
+	cvt := func(width int) *Term {
+		// CVTTSD2SQ / CVTTSD2SL
+		lim := math.Ldexp(1, width-1)
+		inr := tb.And(tb.fcmp(OFLe, tb.F64(-lim), f64), tb.fcmp(OFLt, f64, tb.F64(lim)))
+		return tb.Ite(inr, tb.FToInt(f64, true, width), tb.Const(width, uint64(1)<<uint(width-1)))
+	}
+	if signed {
+		switch w {
+		case 64:
+			return cvt(64)
+		case 32:
+			return cvt(32)
+		default:
+			return tb.Extract(cvt(32), w-1, 0)
+		}
+	}
+	switch w {
+	case 64:
+		two63 := tb.F64(math.Ldexp(1, 63))
+		small := tb.fcmp(OFLt, f64, two63)
+		hi := tb.bin(OBXor, x.floatToInt(tb.fbin(OFSub, f64, two63), true, 64), tb.Const(64, 1<<63))
+		return tb.Ite(small, cvt(64), hi)
+	default:
+		return tb.Extract(cvt(64), w-1, 0)
 	}
 }
